@@ -51,6 +51,8 @@ def run(ctx):
     targets = [[o, c, R, str(d), str(b)] for d, b in dims for c in ('Insertion', 'Deletion')]
     targets += [['Insertion', R, '3', '2'], ['Deletion', R, '2', '21']]          # fully expanded, multi-block deletion
     tmism = common.trace_tie(ctx, targets)
+    for fam in ('Ins', 'Del'):
+        tmism += common.kernel_trace_tie(ctx, fam)
     found = None
     runs = [('corrcircuit', ['-seed', ctx.seed, '-n', ctx.pick(40, 1500), '-depth', 3, '-batch', 2]),
             # batch sizes at which the hashed message ends within four bytes of a Keccak rate boundary:
